@@ -38,7 +38,7 @@ def _torch_psd_sqrtm_backward_repeat(grad_output, ctx_tensor, repeat:int=1):
     # https://github.com/pytorch/pytorch/issues/25481#issuecomment-544465798
     N0 = grad_output.shape[-1]
     shape = grad_output.shape
-    grad_output = grad_output.view(-1, N0, N0)
+    grad_output = grad_output.reshape(-1, N0, N0) #the cotangent may be non-contiguous (output permuted before the loss)
     sqrt_EVL,EVC = ctx_tensor
     EVCh = EVC.transpose(1,2).conj()
     ret = grad_output
@@ -50,7 +50,7 @@ def _torch_psd_sqrtm_backward_repeat(grad_output, ctx_tensor, repeat:int=1):
         ret = (EVC @ tmp1 @ EVCh)
         if ind0!=repeat-1:
             sqrt_EVL = sqrt_EVL**2
-    ret = ret.view(*shape)
+    ret = ret.reshape(*shape)
     return ret
 
 
